@@ -49,7 +49,8 @@ AddScalarFactor == /\ stage = "term" /\ Len(cur) < MaxFacs /\ cur # <<>> /\ \A i
                    /\ UNCHANGED <<stage, nv, out, terms, stacks, ro, lo>>
 \* every term ranges over all the variables (a stated legality rule)
 CloseTerm == /\ stage = "term" /\ cur # <<>> /\ Covered(cur) = 1..nv
-             /\ \E kind \in (IF AllowTake /\ Len(cur) >= 2 /\ \A i \in 1..Len(cur) : cur[i].k = "t" /\ cur[i].idx # <<>> THEN {"times", "take"} ELSE {"times"}) :
+             \* take: scalar operands allowed (they are non-zero in the input space); rank-0 tensor operands are outside the input space
+             /\ \E kind \in (IF AllowTake /\ Len(cur) >= 2 /\ \A i \in 1..Len(cur) : cur[i].k = "v" \/ cur[i].idx # <<>> THEN {"times", "take"} ELSE {"times"}) :
                   \E sel \in (IF kind = "take" THEN 1..Len(cur) ELSE {0}) :
                      terms' = Append(terms, [kind |-> kind, sel |-> sel, facs |-> cur])
              /\ cur' = <<>>
